@@ -555,3 +555,9 @@ Proof.
     cbn [negb]. eexists; reflexivity.
   - intros Hq. unfold valid_rate. destruct (Qcltb_spec 0%Qc q) as [P | NP]; [reflexivity | contradiction].
 Qed.
+
+Lemma daily_noon : forall d r x dl,
+  (a_div dec 1%Qc r = Ok x ->
+   parse_obs {| o_date := Some d; o_noon := JAbsent; o_daily := JGood r |} = Ok (Some (d, x))) /\
+  parse_obs {| o_date := Some d; o_noon := JGood r; o_daily := dl |} = Ok (Some (d, r)).
+Proof. intros d r x dl. split; [apply parse_obs_daily | apply parse_obs_noon]. Qed.
